@@ -100,6 +100,23 @@ func checkC16(c *Ctx) {
 	v2, v2un := v2Scope(t)
 	load, loadun := loadScope(t)
 	parse, parseun := parseScope(t)
+	{
+		// objects of foreign types kept in package-level variables and used by the run scopes: unless the type is one
+		// of the few documented as safe for concurrent use, two goroutines running scripts share its internal state
+		var fns []*ssa.Function
+		for f := range run {
+			fns = append(fns, f)
+		}
+		for f := range v2 {
+			if !run[f] {
+				fns = append(fns, f)
+			}
+		}
+		sortFuncs(fns)
+		nObj, bad := sharedObjects(t, fns)
+		r.Ob("RUN-WRITES", "run scopes share no third-party object through a package-level variable", "", len(bad) == 0,
+			fmt.Sprintf("%d uses inspected (sync.Pool, regexp.Regexp, time.Location, os.File accepted as safe for concurrent use); %s — a library object that adapts itself to its input (an obfuscator, a tokenizer, a cache) makes concurrent runs influence each other even when the race detector stays silent", nObj, strings.Join(bad, "; ")))
+	}
 	n := sharedWriteObligations(c, "RUN-WRITES", "run(v1)", run, true)
 	n += sharedWriteObligations(c, "RUN-WRITES", "run(v2)", v2, true)
 	sharedWriteObligations(c, "LOAD-WRITES", "load", load, false)
